@@ -90,7 +90,8 @@ def quota_yaml(quotas):
         if q["kind"] == "fixed":
             s += "      fixed_window:\n        max: %d\n        interval: %d\n        interval_unit: second\n" % (q["max"], q["w"] // 2)
         else:
-            s += "      concurrent:\n        max_request_count: %d\n" % q["max"]
+            s += ("      concurrent:\n        max_request_count: %d\n        request_expiration_sec: %d\n        gc_interval_sec: %d\n"
+                  % (q["max"], q["exp"] // 2, q["gc"] // 2))
     return s
 
 
@@ -142,7 +143,8 @@ def rand_config(rng, n, force=None):
             q = rand_filter(rng, rng.choice(PATHS), True, False)
         if fc:
             q = rand_filter(rng, fc["quotas"][i][1], False, False)
-        q.update({"id": "q%d%d" % (n, i), "kind": kind, "max": rng.randint(1, 3), "w": rng.choice([4, 6, 8])})
+        q.update({"id": "q%d%d" % (n, i), "kind": kind, "max": rng.randint(1, 3), "w": rng.choice([4, 6, 8]),
+                  "exp": rng.choice([4, 6, 8]), "gc": rng.choice([2, 4])})
         quotas.append(q)
     flows, limq, status, st, seth = [], {}, {}, 430, {}
     extra = {"StRange": {}, "RetryA": {}, "RCache": {}, "WCache": {}, "CacheTtl": rng.choice([2, 3]), "CacheJoin": []}
@@ -287,7 +289,7 @@ def rand_config(rng, n, force=None):
            "quotas": [{"id": q["id"], "kind": q["kind"], "url": render(q["pat"]), "pat": q["pat"], "m": q["m"], "h": q["h"], "q": q["q"], "s": q["s"]}
                       for q in quotas]}
     model = {"cfg": cfg, "QKind": {q["id"]: q["kind"] for q in quotas}, "QMax": {q["id"]: q["max"] for q in quotas},
-             "QW": {q["id"]: q["w"] for q in quotas}, "LimQ": limq or {"-": "-none-"}, "GenStatus": status or {"-": 0},
+             "QW": {q["id"]: q["w"] for q in quotas}, "QExp": {q["id"]: q["exp"] for q in quotas}, "QGc": {q["id"]: q["gc"] for q in quotas}, "LimQ": limq or {"-": "-none-"}, "GenStatus": status or {"-": 0},
              "SetH": seth or {"-": ["-", "-", "-"]}, "StRange": extra["StRange"] or {"-": [0, 0]}, "RetryA": extra["RetryA"] or {"-": 0},
              "RCache": extra["RCache"] or {"-": "-"}, "WCache": extra["WCache"] or {"-": "-"}, "CacheTtl": extra["CacheTtl"],
              "CacheJoin": extra["CacheJoin"]}
@@ -457,10 +459,10 @@ def run(ctx):
     ctx.cov["checker_cmd"] = "tlc -config GatewayTrace.cfg GatewayTrace.tla (StateDeque)"
     ctx.cov["trusted_base"] = ["TLC 1.8", "the property specifications FilterP / FlowGraphP / FixedWindowP / ConcurrencyP / ActionsP as checked by C03 / C04 / C01 / C02 / C07",
                                "harness/cmd/gateway projection of generated system-flow names"]
-    ctx.assumptions += ["one tick = 500 ms; fixed windows 2-4 s; no concurrency-slot expiry within a history",
+    ctx.assumptions += ["one tick = 500 ms; fixed windows 2-4 s; concurrency slots expire after 2-4 s, collected every 1-2 s (passes awaited tick by tick)",
                         "sequential handling of overlapping transactions (concurrency is C18's subject)", "at most one concurrency quota per configuration",
                         "status-code filters only in configurations without answering processors (observation G4)"]
-    ncfg, nh, hl = (20, 9, 24) if not T else (150, 24, 40)
+    ncfg, nh, hl = (18, 8, 24) if not T else (100, 24, 40)
     # candidates: twice as many as needed (random graphs are often refused by the loader: C05's subject), loaded once without histories
     cands = [rand_config(ctx.rng, n) for n in range(2 * ncfg)]
     forced = sorted(FORCED) * (1 if not T else 4)
@@ -493,7 +495,7 @@ def run(ctx):
         return validate(ctx, ev, "g%d" % i)
     res = parallel(one, list(enumerate(traces)), n=8)
     ctx.cov["states"] = max(1, ctx.cov["states"])
-    stats = {"tx": 0, "refused": 0, "early": 0, "multi": 0, "resent": 0, "retry_failed": 0, "cache_hit": 0,
+    stats = {"tx": 0, "refused": 0, "early": 0, "multi": 0, "resent": 0, "retry_failed": 0, "cache_hit": 0, "overlapping": 0,
              "g6_retry_on_early_response": 0, "g7_answer_lost_to_writecache_error": 0}
     for (acc, rejected, rounds), ev, sc in zip(res, traces, scripts):
         cfg, hs = split_histories(ev)
@@ -509,6 +511,13 @@ def run(ctx):
             stats["multi"] += sum(1 for e in txs if len({s["flow"] for s in e.get("seq", []) if not s.get("sid")}) > 1)
             stats["resent"] += sum(1 for e in txs if e.get("resent") and e["dir"] == "req")
             stats["retry_failed"] += sum(1 for e in txs for s in e.get("seq", []) if s.get("out") == "failed")
+            opened = set()
+            for e in h:
+                if e["ev"] == "tx" and e["dir"] == "req" and not e.get("status", 0):
+                    stats["overlapping"] += 1 if opened else 0
+                    opened.add(e["id"])
+                elif e["ev"] == "err" or (e["ev"] == "tx" and e["dir"] == "res"):
+                    opened.discard(e["id"])
             stats["cache_hit"] += sum(1 for e in txs for s in e.get("seq", []) if s.get("out") == "cache_hit")
             stats["g7_answer_lost_to_writecache_error"] += sum(1 for e in txs if e.get("errclass") == "response-not-found")
             stats["g6_retry_on_early_response"] += sum(1 for e in txs if e["dir"] == "req" for s in e.get("seq", []) if s.get("out") in ("retry", "failed"))
